@@ -50,7 +50,7 @@ class Env:
             for c in t:
                 if c is None:
                     continue
-                if isinstance(c, dict) and set(c.keys()) == {"tag", "type"}:
+                if isinstance(c, dict) and set(c.keys()) in ({"tag", "type"}, {"tag", "explicitTag", "type"}):
                     c = c["type"]
                 cases.append(self.expand(c, sigma, depth + 1))
             if has_null and len(cases) == 1:
@@ -192,7 +192,7 @@ def to_T(env, t, sigma=None, depth=0):
         for c in t:
             if c is None:
                 continue
-            if isinstance(c, dict) and set(c.keys()) == {"tag", "type"}:
+            if isinstance(c, dict) and set(c.keys()) in ({"tag", "type"}, {"tag", "explicitTag", "type"}):
                 c = c["type"]
             cases.append(to_T(env, c, sigma, depth + 1))
         if has_null and len(cases) == 1:
